@@ -108,7 +108,7 @@ def cli_case(ctx, rng, k):
         q = [max(0, min(x, 126 - base)) for x in gen_q(rng, n, [10, 20])]
         s = "".join(rng.choice("ACGTGGN") for _ in range(n))
         recs.append((f"r{i}", s, "".join(chr(x + base) for x in q)))
-    mode = rng.choice(["q1", "q2", "nextseq", "paired"])
+    mode = rng.choice(["q1", "q2", "nextseq", "paired", "both", "both"])
     d = f"{ctx.scratch}/cli{k}"
     import os
     os.makedirs(d, exist_ok=True)
@@ -120,6 +120,10 @@ def cli_case(ctx, rng, k):
         cb = rng.choice([5, 10, 20, 30]); argv += ["-q", str(cb)]
     elif mode in ("q2", "paired"):
         cf, cb = rng.choice([0, 5, 10, 20]), rng.choice([0, 5, 10, 20]); argv += ["-q", f"{cf},{cb}"]
+    elif mode == "both":
+        # NextSeq trimming runs first, ordinary quality trimming then sees its result; the report must add both up
+        nc = rng.choice([5, 10, 20]); argv += ["--nextseq-trim", str(nc)]
+        cf, cb = rng.choice([0, 10, 20]), rng.choice([5, 10, 20]); argv += ["-q", f"{cf},{cb}"]
     else:
         nc = rng.choice([5, 10, 20]); argv += ["--nextseq-trim", str(nc)]
     cf2, cb2 = cf, cb
@@ -149,7 +153,10 @@ def cli_case(ctx, rng, k):
             continue
         for (name, s, qs), (on, os_, oq) in zip(recs, out):
             q = [ord(c) - base for c in qs]
-            if nc is not None:
+            if nc is not None and mode == "both":
+                ns = R.nextseq_trim(s, q, nc)
+                start, stop = R.qtrim(q[:ns], a, b)
+            elif nc is not None:
                 stop = R.nextseq_trim(s, q, nc); start = 0
             else:
                 start, stop = R.qtrim(q, a, b)
@@ -160,7 +167,6 @@ def cli_case(ctx, rng, k):
                 nontrivial = True
     rep = json.load(open(f"{d}/rep.json"))["basepair_counts"]
     got = [rep["quality_trimmed_read1"], rep["quality_trimmed_read2"]]
-    skip1 = mode != "nextseq" and (cf, cb) == (0, 0) and False
     for side in range(len(outs)):
         if got[side] is None:
             # '-q 0' alone installs no trimmer for that side: nothing to report
